@@ -29,3 +29,8 @@ Arguments RErr {A E} e.
 (* dst[a .. a + len src].copy_from_slice(src) *)
 Definition list_splice (dst:list N) (a:N) (src:list N) : list N :=
   firstn (N.to_nat a) dst ++ src ++ skipn (N.to_nat a + length src) dst.
+(* An opaque StunAttribute of the translated agent code is abstracted to its kind: 0 ordinary, 1 MESSAGE-INTEGRITY,
+   2 MESSAGE-INTEGRITY-SHA256, 3 FINGERPRINT; the macro-generated predicates is_message_integrity() etc. are these tests *)
+Definition attr_is_mi (k:N) : bool := (k =? 1)%N.
+Definition attr_is_sha (k:N) : bool := (k =? 2)%N.
+Definition attr_is_fp (k:N) : bool := (k =? 3)%N.
